@@ -164,6 +164,51 @@ def sccs(preds):
   return out, graph
 
 
+def expand_functors(program):
+  """The meaning of `N := F(A: B)` as the documentation gives it: N is F with every predicate
+  F depends on, and that depends on A, replaced by a copy reading B instead of A. Returns a
+  program without functors whose copies are ordinary predicates (N itself, and `<member>__<N>`
+  for the other copied predicates); `copy_of` maps each copy to its original."""
+  import copy
+  fs = program.get('functors') or []
+  if not fs:
+    return program
+  p = copy.deepcopy(program)
+  p['functors'] = []
+  p['copy_of'] = dict(p.get('copy_of') or {})
+  for f in fs:
+    by = {q['name']: q for q in p['preds']}
+    reach = {}
+    for n in by:
+      seen = set()
+      stack = [n]
+      while stack:
+        x = stack.pop()
+        if x in seen or x not in by:
+          continue
+        seen.add(x)
+        stack.extend(deps(by[x]))
+      reach[n] = seen
+    args = set(f['args'])
+    D = [q['name'] for q in p['preds']
+         if q['name'] in reach[f['of']] and q['kind'] != 'edb' and (reach[q['name']] - {q['name']}) & args
+         or q['name'] == f['of']]
+    mapping = {m: (f['name'] if m == f['of'] else '%s__%s' % (m, f['name'])) for m in D}
+    subst = dict(mapping)
+    subst.update(f['args'])
+    for m in D:
+      q = copy.deepcopy(by[m])
+      q['name'] = mapping[m]
+      for ru in q['rules']:
+        for a in ru['atoms']:
+          a[0] = subst.get(a[0], a[0])
+      p['preds'].append(q)
+      p['copy_of'][mapping[m]] = m
+      if m in p.get('recursive', {}):
+        p['recursive'][mapping[m]] = copy.deepcopy(p['recursive'][m])
+  return p
+
+
 def depth_of(comp, recursive, default_depth=8):
   ann = sorted(n for n in comp if n in recursive)
   if ann:
@@ -187,6 +232,7 @@ def evaluate(program, max_fix_steps=120, row_cap=20000):
 
   For predicates downstream of a recursive component, `rel` is computed from the
   upstream `rel`, and `fix` from the upstream `fix` (None propagates)."""
+  program = expand_functors(program)
   preds = program['preds']
   by = {p['name']: p for p in preds}
   recursive = program.get('recursive', {})
